@@ -892,6 +892,8 @@ class PyCdlib:
         splitpath = utils.split_path(joliet_path)
         name = splitpath.pop()
 
+        if not name:
+            raise pycdlibexception.PyCdlibInvalidInput('A Joliet path must name an entry below the root directory')
         if len(name) > 64:
             raise pycdlibexception.PyCdlibInvalidInput('Joliet names can be a maximum of 64 characters')
         parent = self._find_joliet_record(b'/' + b'/'.join(splitpath))
@@ -913,6 +915,8 @@ class PyCdlib:
         """
         splitpath = utils.split_path(udf_path)
         name = splitpath.pop()
+        if not name:
+            raise pycdlibexception.PyCdlibInvalidInput('A UDF path must name an entry below the root directory')
         (parent_ident_unused, parent) = self._find_udf_record(b'/' + b'/'.join(splitpath))
 
         return (name.decode('utf-8').encode('utf-8'), parent)
